@@ -1,0 +1,10 @@
+//go:build verif
+
+package executor
+
+// Verification hooks (build tag `verif`): add-only accessors for the external harness.
+
+import "github.com/digitalocean/firebolt/message"
+
+// VerifDeliverMessage exposes deliverMessage.
+func (e *Executor) VerifDeliverMessage(msg message.Message) []error { return e.deliverMessage(msg) }
